@@ -81,6 +81,7 @@ struct VecType {
   bool elemTriv = false, elemTR = false, elemHooks = false, elemNoexceptMove = true, elemArith = false;
   bool claimsTR = false;      // the container declares itself trivially relocatable
   bool sizeSigned = false;
+  unsigned sizeTypeId = 0;    // sizeof(size_type) * 2 + signedness: equal ids = same size_type
   int allocDomain = 0;        // 0: none (fixed)
   bool hasRealloc = false;    // allocator offers reallocate and T is TR
   bool hasExtras = true;      // AMC_NONSTD_FEATURES
